@@ -58,11 +58,22 @@ func genExpScenario(rt *rapid.T) expScenario {
 		if far >= 0 && chance(rt, 70, "far.other") {
 			a.C = 1 - far
 		}
-		a.K = pick(rt, []string{"Add", "ReAdd", "Set", "SetPreserve", "WriteCas", "Touch", "Touch", "GetAndTouchRaw", "GetAndTouchRaw", "WriteWithXattrs", "Update", "UpdateExp", "UpdateXattrs", "WriteUpdateX", "WriteUpdateXRetry", "SetWithMeta", "Delete", "DeleteWithXattrs", "Remove", "Incr", "Reopen", "Recreate", "Recreate", "SetPast"}, "k")
+		a.K = pick(rt, []string{"Add", "ReAdd", "Set", "SetPreserve", "WriteCas", "Append", "Touch", "Touch", "GetAndTouchRaw", "GetAndTouchRaw", "WriteWithXattrs", "Update", "UpdateExp", "UpdateXattrs", "WriteUpdateX", "WriteUpdateXRetry", "SetWithMeta", "Delete", "DeleteWithXattrs", "Remove", "Incr", "Reopen", "Recreate", "Recreate", "SetPast"}, "k")
 		a.TTL = pick(rt, []int{1, 1, 2, 2, 3, 4, 0, 60, 3600}, "ttl")
 		a.Abs = rapid.Bool().Draw(rt, "abs")
 		if a.K == "Reopen" && !sc.Disk {
 			a.K = "Touch"
+		}
+		if a.K == "Append" {
+			// what sets Append apart is the expiry it states over the one the document has: half of
+			// them say "never", and most follow the action before them on its key
+			if chance(rt, 50, "append.never") {
+				a.TTL = 0
+			}
+			if len(sc.Actions) > 0 && chance(rt, 60, "append.same") {
+				prev := sc.Actions[len(sc.Actions)-1]
+				a.Key, a.C = prev.Key, prev.C
+			}
 		}
 		sc.Actions = append(sc.Actions, a)
 	}
@@ -206,6 +217,17 @@ func runExpScenario(sc expScenario, windowSec int) (res expResult) {
 				cas = 0
 			}
 			_, err = ds.WriteCas(a.Key, exp, cas, body, 0)
+			if err == nil {
+				m.live, m.deadline, wrote = true, newDeadline(), true
+			}
+		case "Append":
+			// WriteCas with the Append option: the expiry given replaces the old one like any other
+			// write (0 = never expires); fails on a missing key or a tombstone (S-C14l)
+			_, cas, gerr := ds.GetRaw(a.Key)
+			if gerr != nil {
+				cas = 0
+			}
+			_, err = ds.WriteCas(a.Key, exp, cas, []byte("+"), sgbucket.Append)
 			if err == nil {
 				m.live, m.deadline, wrote = true, newDeadline(), true
 			}
